@@ -146,7 +146,15 @@ def judge_candidate(cs, c, k, res, refine, panic_msg):
     return ('fail', key, 'from_polygon returned Err for a well-conditioned polygon (%s%s)' % (cond_note(cs, c), (', a vertex carries two bridges' if shared else '') + (', push dropped a vertex of the merged outline' if merge_lost else '')))
 
 def judge_parts(k, A, i0, res, panic_msg):
-    cs, key = G.prepare(A, i0, [])
+    # "well-conditioned" is defined by the property itself (edges >= 0.05, angles >= 2 degrees, ...): for the unrefined
+    # triangulation (k = 0) outlines down to 10 cm across are judged (a thin chevron whose only diagonal is a few millimetres long
+    # has edges of 5..15 cm); refinement requests keep the half-metre floor of the C01 space
+    old = G.MIN_EXTENT
+    if k == 0: G.MIN_EXTENT = Fraction(1, 10)
+    try:
+        cs, key = G.prepare(A, i0, [])
+    finally:
+        G.MIN_EXTENT = old
     if cs is None:
         if res[0] == 'panic': return ('skip', 'panic-outside-space-' + key)
         return ('skip', key)
